@@ -126,6 +126,19 @@ BUILT = {
         note='Trusted: TLC, numpy FFT for applying the factor table (bound to the textbook sum by C01/C02). Bounded: shapes up to 5x4 (quick) / 6x5; OTF shapes '
              'with axis lengths in {1,2,3,4,6} and lcm in {1,2,3,4,6}.',
         technique='TLA+ spec (Conv.tla: direct-sum convolution laws, per-frequency factor model, exact MTF^2) checked by TLC; emitted cases replayed into prysm.convolution / prysm.otf'),
+    'C08': dict(
+        spec='SeqSweep.tla',
+        text='SeqSweep.tla is the running-index sweep behind every one-index *_seq routine as a step machine (running order, three-term recurrence state, '
+             'running output slot, special-cased seed orders, emit when ns[slot] = i) in its value and derivative variants, the two-index lookup machine '
+             '(per-|m| radial tables swept once, pairs read out in request order, repeats allowed) and an exact model of numpy broadcasting for the per-order '
+             'scale vector. TLC checks, for every non-empty ascending subset of 0..MaxOrder and every list of pairs, that slot k holds exactly the mode '
+             'requested in slot k and that the scale acts along axis 0 for every coordinate shape; the pinned (L,1) scale shape must violate that. Every '
+             'emitted request is replayed into all 40 one-index *_seq forms (Jacobi with five parameter pairs, Legendre, Chebyshev 1-4, both Hermite, '
+             'Laguerre, both Dickson, Qbfs, Qcon; value and derivative) and into zernike_nm_seq / zernike_nm_der_seq / Q2d_seq / xy_seq, on 0-D, 1-D, 2-D '
+             'and (len(ns), q) coordinate arrays, comparing slot j with the library\'s own single-order function.',
+        note='Trusted: TLC, numpy allclose at 1e-9. Bounded: orders 0..7 (quick) / 0..9, pair lists of length <= 2 / 3 from n <= 4 / 5. The single-order '
+             'functions themselves are bound to their definitions by C07.',
+        technique='TLA+ algorithm-machine spec (SeqSweep.tla) checked by TLC for every request; each request replayed into every *_seq routine and compared with the single-order function'),
 }
 
 NOT_BUILT_REASON = 'not built yet in this round (specification planned in DESIGN.md section 4; never decided by another technique)'
